@@ -32,11 +32,24 @@ type ParserData struct {
 	getOffset func() int
 	codePos   []int
 	jmpPos    []int // jmpStack 各项入栈时解析器所处的文本位置
-	codeStack []struct {
-		code    []ByteCode
-		index   int
-		textPos int
+	// counterStack / varnameStack 各项入栈时的文本位置: 回溯只恢复文本位置，被放弃的分支留下的栈项
+	// (入栈位置大于当前位置，在被接受的解析路径上不可能出现)会让后续的 Pop 取到别人的数据
+	counterPos []int
+	varnamePos []int
+	codeStack  []struct {
+		code      []ByteCode
+		index     int
+		textPos   int
+		codePos   []int
+		pos       int // CodePush 时的文本位置
 	}
+}
+
+func (e *ParserData) curPos() int {
+	if e.getOffset == nil {
+		return int(^uint(0) >> 1)
+	}
+	return e.getOffset()
 }
 
 type BufferSpan struct {
@@ -88,6 +101,7 @@ func (e *ParserData) checkStackOverflow() bool {
 }
 
 func (e *ParserData) WriteCode(T CodeType, value any) {
+	e.dropStaleCodeFrames()
 	if e.checkStackOverflow() {
 		return
 	}
@@ -95,7 +109,7 @@ func (e *ParserData) WriteCode(T CodeType, value any) {
 	c := &e.code[e.codeIndex]
 	c.T = T
 	c.Value = value
-	if e.getOffset != nil && len(e.codeStack) == 0 {
+	if e.getOffset != nil {
 		for len(e.codePos) <= e.codeIndex {
 			e.codePos = append(e.codePos, 0)
 		}
@@ -226,14 +240,28 @@ func (e *ParserData) AddStoreLocal(text string) {
 	e.WriteCode(typeStoreNameLocal, text)
 }
 
+func (e *ParserData) dropStaleName() {
+	cur := e.curPos()
+	for n := len(e.varnameStack); n > 0 && len(e.varnamePos) == n && e.varnamePos[n-1] > cur; n = len(e.varnameStack) {
+		e.varnameStack = e.varnameStack[:n-1]
+		e.varnamePos = e.varnamePos[:n-1]
+	}
+}
+
 func (e *ParserData) NamePush(test string) {
+	e.dropStaleName()
 	e.varnameStack = append(e.varnameStack, test)
+	e.varnamePos = append(e.varnamePos, e.curPos())
 }
 
 func (e *ParserData) NamePop() string {
+	e.dropStaleName()
 	last := len(e.varnameStack) - 1
 	val := e.varnameStack[last]
 	e.varnameStack = e.varnameStack[:last]
+	if len(e.varnamePos) > last {
+		e.varnamePos = e.varnamePos[:last]
+	}
 	return val
 }
 
@@ -347,11 +375,23 @@ func (e *ParserData) OffsetJmpSetX(offsetA int, offsetB int, rev bool) {
 	}
 }
 
+// dropStaleCounter 弹出被放弃的分支遗留的计数器(例如未闭合的字符串)
+func (e *ParserData) dropStaleCounter() {
+	cur := e.curPos()
+	for n := len(e.counterStack); n > 0 && len(e.counterPos) == n && e.counterPos[n-1] > cur; n = len(e.counterStack) {
+		e.counterStack = e.counterStack[:n-1]
+		e.counterPos = e.counterPos[:n-1]
+	}
+}
+
 func (e *ParserData) CounterPush() {
+	e.dropStaleCounter()
 	e.counterStack = append(e.counterStack, 0)
+	e.counterPos = append(e.counterPos, e.curPos())
 }
 
 func (e *ParserData) CounterAdd(offset IntType) {
+	e.dropStaleCounter()
 	last := len(e.counterStack) - 1
 	if last != -1 {
 		e.counterStack[last] += offset
@@ -359,9 +399,13 @@ func (e *ParserData) CounterAdd(offset IntType) {
 }
 
 func (e *ParserData) CounterPop() IntType {
+	e.dropStaleCounter()
 	last := len(e.counterStack) - 1
 	num := e.counterStack[last]
 	e.counterStack = e.counterStack[:last]
+	if len(e.counterPos) > last {
+		e.counterPos = e.counterPos[:last]
+	}
 	return num
 }
 
@@ -454,23 +498,51 @@ func (p *ParserData) AddAttrSet(objName string, attr string, isRaw bool) {
 	p.WriteCode(typeAttrSet, attr)
 }
 
+// dropStaleCodeFrames 若栈顶的代码段是被放弃的分支打开的(打开位置在当前位置之后)，回到外层代码段
+func (p *ParserData) dropStaleCodeFrames() {
+	if p.getOffset == nil {
+		return
+	}
+	cur := p.getOffset()
+	for n := len(p.codeStack); n > 0 && p.codeStack[n-1].pos > cur; n = len(p.codeStack) {
+		info := p.codeStack[n-1]
+		p.codeStack = p.codeStack[:n-1]
+		p.code, p.codeIndex, p.codePos = info.code, info.index, info.codePos
+	}
+}
+
 func (p *ParserData) CodePush(textPos int) {
+	p.dropStaleCodeFrames()
 	p.codeStack = append(p.codeStack, struct {
-		code    []ByteCode
-		index   int
-		textPos int
-	}{code: p.code, index: p.codeIndex, textPos: textPos})
+		code      []ByteCode
+		index     int
+		textPos   int
+		codePos   []int
+		pos       int
+	}{code: p.code, index: p.codeIndex, textPos: textPos, codePos: p.codePos, pos: p.curPos()})
 	p.code = make([]ByteCode, 256)
 	p.codeIndex = 0
+	p.codePos = nil
 }
 
 func (p *ParserData) CodePop() ([]ByteCode, int, int) {
+	p.dropStaleCodeFrames()
 	lastCode, lastIndex := p.code, p.codeIndex
+	// 与主代码段相同: 在"当前位置之后"写入的指令来自被放弃的分支(如 `&z = 0 ||(` 中的 je.dup)
+	if p.getOffset != nil {
+		cur := p.getOffset()
+		for i := 0; i < lastIndex && i < len(p.codePos); i++ {
+			if p.codePos[i] > cur {
+				lastCode[i] = ByteCode{T: typeNop}
+			}
+		}
+	}
 
 	last := len(p.codeStack) - 1
 	info := p.codeStack[last]
 	p.codeStack = p.codeStack[:last]
 	p.code = info.code
 	p.codeIndex = info.index
+	p.codePos = info.codePos
 	return lastCode, lastIndex, info.textPos
 }
